@@ -55,6 +55,17 @@ def slim(c):
     return d
 
 
+JUDGES = 3
+_CASES = None
+
+
+def judge_batch(job):
+    b, e, casefile = job
+    rj, fails = tlc.judge('doc', 'WrapCases', 'WrapCases.cfg', [slim(c) for c in _CASES[b:e]], casefile=casefile,
+                          timeout=3000, workers=4)
+    return b, e - b, rj, fails
+
+
 def vacuity(cases, strict):
     """every class the property quantifies over must actually have been exercised (strict: raise if not; when
     the tools misbehave the measured classes shift - then the violations are the message, not the coverage)"""
@@ -170,12 +181,18 @@ def run(tier):
     narrow = []
     bare_lf = []
     allfails = {}
-    for b in range(0, len(cases), 6000):
-        part = cases[b:b + 6000]
-        rj, fails = tlc.judge('doc', 'WrapCases', 'WrapCases.cfg', [slim(c) for c in part],
-                              casefile=os.path.join(wd, 'cases.json'), timeout=3000, workers=8)
-        rep.add_tlc(rj, 'WrapCases', traces=len(part))
-        log('C18: judged %d cases (%.1fs)' % (len(part), rep.timer.s()))
+    # about half of a TLC run is reading the case file (one thread): the batches are judged by JUDGES TLC
+    # processes side by side (own process each: the TLC runner names its scratch directory after the pid)
+    global _CASES
+    _CASES = cases
+    size = min(6000, -(-len(cases) // JUDGES))
+    jobs = [(b, min(b + size, len(cases)), os.path.join(wd, 'cases-%d.json' % b)) for b in range(0, len(cases), size)]
+    with mp.get_context('fork').Pool(JUDGES) as pool:
+        results = pool.map(judge_batch, jobs, chunksize=1)
+    _CASES = None
+    for b, n, rj, fails in results:
+        rep.add_tlc(rj, 'WrapCases', traces=n)
+        log('C18: judged %d cases (%.1fs)' % (n, rep.timer.s()))
         drift += sum(1 for tag, _ in rj.notes if tag == 'DRIFT')
         narrow += [b + int(v.split(',')[0]) - 1 for tag, v in rj.notes if tag == 'NARROW']
         bare_lf += [b + int(v.split(',')[0]) - 1 for tag, v in rj.notes if tag == 'TERMINATOR']
